@@ -325,6 +325,60 @@ func c04OutboundPartial(c c04Case, obs *c04Obs) {
 	obs.stream = cn.stream()
 }
 
+// c04OutboundBurst: the first Write is held (a momentarily slow peer) while a burst of messages of very
+// different sizes (Cuts = sizes in bytes) queues up behind it in the handler's outgoing buffer; then the
+// peer reads again.  Everything must reach the wire whole and in hand-off order.
+func c04OutboundBurst(c c04Case, obs *c04Obs) {
+	*obs = c04Obs{seen: map[int][][]byte{}}
+	cn := newConn(0)
+	cn.holdW = true
+	var sendRaw func(b []byte) error
+	if c.Role == "ini" {
+		h := simplefixgo.NewInitiatorHandler(context.Background(), "35", c.Buf)
+		cl := simplefixgo.NewInitiator(cn, h, c.Buf, 5*time.Second)
+		go func() { obs.serveErr = cl.Serve(); obs.served = true }()
+		sendRaw = h.SendRaw
+	} else {
+		l := &slistener{}
+		a := simplefixgo.NewAcceptor(l, simplefixgo.NewAcceptorHandlerFactory("35", c.Buf), 5*time.Second, func(h simplefixgo.AcceptorHandler) {
+			sendRaw = h.SendRaw
+		})
+		go func() { obs.serveErr = a.ListenAndServe(); obs.served = true }()
+		l.q = append(l.q, cn)
+	}
+	vsched.Settle()
+	done := make(chan struct{}, 1)
+	go func() {
+		for i, size := range c.Cuts {
+			pad := size - 90
+			if pad < 1 {
+				pad = 1
+			}
+			m := rawFrom("SELF", "PEER", "D", i+1, fmt.Sprintf("11=m%d", i), "58="+strings.Repeat("p", pad))
+			obs.handed = append(obs.handed, m...)
+			_ = sendRaw(m)
+		}
+		done <- struct{}{}
+	}()
+	vsched.Settle() // the writer sits in the held Write, the rest of the burst is queued (or the sender waits)
+	cn.holdW = false
+	<-done
+	time.Sleep(5 * time.Second)
+	vsched.Settle()
+	obs.stream = cn.stream()
+}
+
+func c04CheckBurst(c c04Case, obs *c04Obs) (string, string) {
+	if !bytes.Equal(obs.handed, obs.stream) {
+		n := 0
+		for n < len(obs.stream) && n < len(obs.handed) && obs.stream[n] == obs.handed[n] {
+			n++
+		}
+		return "outbound-burst-not-in-handoff-order", fmt.Sprintf("sizes %v: %d bytes on the wire, %d handed off, first difference at byte %d", c.Cuts, len(obs.stream), len(obs.handed), n)
+	}
+	return "", ""
+}
+
 func c04CheckPartial(c c04Case, obs *c04Obs) (string, string) {
 	// whatever reached the wire is a prefix of the hand-off order (the connection may die after the fault,
 	// but it never repeats, skips or reorders bytes)
@@ -410,6 +464,8 @@ func c04ScenarioOf(c c04Case, delay bool, bound int) *schedScenario {
 			c04Outbound(c, &obs)
 		case "outbound-partial":
 			c04OutboundPartial(c, &obs)
+		case "outbound-burst":
+			c04OutboundBurst(c, &obs)
 		default:
 			c04Inbound(c, &obs)
 		}
@@ -420,11 +476,13 @@ func c04ScenarioOf(c c04Case, delay bool, bound int) *schedScenario {
 			return c04CheckOutbound(c, &obs)
 		case "outbound-partial":
 			return c04CheckPartial(c, &obs)
+		case "outbound-burst":
+			return c04CheckBurst(c, &obs)
 		}
 		return c04CheckInbound(c, &obs)
 	}
 	sc.Outcome = func() string {
-		if c.Mode == "outbound-partial" {
+		if c.Mode == "outbound-partial" || c.Mode == "outbound-burst" {
 			return fmt.Sprintf("wire-bytes:%d", len(obs.stream))
 		}
 		if c.Mode == "outbound" {
@@ -543,6 +601,17 @@ func runC04(R *vlib.Out) {
 				}
 			}
 		}
+		// bursts queued behind a momentarily slow peer: sizes around 1 KiB, 4 KiB, 16 KiB, 64 KiB thresholds
+		for _, buf := range []int{1, 10, 100} {
+			for _, sizes := range [][]int{
+				{100, 40000, 40000, 300, 40000, 10}, {3000, 3000, 3000, 3000, 3000, 3000, 3000, 3000, 3000, 3000, 3000, 3000, 3000, 3000, 3000, 3000, 3000, 3000, 3000, 3000, 3000, 3000, 3000, 3000},
+				{70000, 100, 70000, 100}, {100, 200, 300, 5000, 100, 17000, 100}, {1000, 1000, 66000, 10, 10, 66000, 10}, {100, 100, 100},
+			} {
+				if !runDefault(c04Case{Role: role, Buf: buf, Mode: "outbound-burst", Cuts: sizes}) {
+					goto done
+				}
+			}
+		}
 		for _, buf := range []int{0, 1, 10} {
 			for _, seq := range seqsAll {
 				s, _ := streamOf(seq)
@@ -609,7 +678,7 @@ func runC04(R *vlib.Out) {
 				R.Cap("deadline")
 				break
 			}
-			scenarioBudget = vlib.Remaining() / time.Duration(len(scs)-i)
+			scenarioBudget = 4 * vlib.Remaining() / time.Duration(len(scs)-i) // most scenarios finish far below their share
 			exploreSched(R, c04ScenarioOf(c, true, bound))
 		}
 	}
